@@ -52,6 +52,7 @@ class Engine:
         self.solver_time = 0.0
         self.nqueries = 0
         self.concrete_transcendentals = False
+        self.canonical_uf_args = False   # arguments of Exp/Cos/Sin/... brought to sum-of-monomials normal form
         self.fork_log = []
         self.active = False
         self.exp_underflow = False
@@ -705,11 +706,19 @@ numbers.Real.register(SymR)
 # --------------------------------------------------------------------------
 # transcendental / algebraic stubs
 # --------------------------------------------------------------------------
+def canon_arg(zx):
+    """optional canonical (sum-of-monomials) form of a function argument: polynomially equal arguments
+    become the same term, so the uninterpreted function is applied once (pure term rewriting)"""
+    if ENGINE.canonical_uf_args and not isinstance(zx, Fraction):
+        return z3.simplify(zx, som=True, sort_sums=True)
+    return zx
+
+
 def _uf_app(name, x, axioms):
     """application of an uninterpreted function with per-application axioms and
     pairwise instantiated relational axioms"""
     f = ENGINE.func(name)
-    zx = z(x)
+    zx = canon_arg(z(x))
     apps = ENGINE.uf_apps.setdefault(name, [])
     for (ax, ay) in apps:
         if ax.eq(zx):
@@ -801,7 +810,7 @@ def _trig_pair(x):
             return F1, F0
         if ENGINE.concrete_transcendentals:
             return Fraction(math.cos(float(x))), Fraction(math.sin(float(x)))
-    zx = z(x)
+    zx = canon_arg(z(x))
     apps = ENGINE.uf_apps.setdefault("CosSin", [])
     for (ax, ay) in apps:
         if ax.eq(zx):
